@@ -32,7 +32,7 @@ type dxCase struct {
 	ExpResp []string `json:"exp_resp"` // messages for the client instance
 }
 
-const dxTimeout = 5 * time.Second
+const dxTimeout = 10 * time.Second
 
 type dxObs struct {
 	Req, Resp       []delivered
